@@ -595,6 +595,15 @@ func (c *SpecCtx) evalCall(n *SNode) Val {
 	case "max":
 		a, b := c.eval(n.Args[0]), c.eval(n.Args[1])
 		return scalar(a.T, ite(sx(">=", a.S, b.S), a.S, b.S))
+	case "umul":
+		// umul(a, b): the product a*b behind a function symbol whose definition is only instantiated on the ground terms a
+		// query mentions (keeps nonlinear terms out of quantified invariants; the defining axiom makes it exact)
+		a, b := c.eval(n.Args[0]), c.eval(n.Args[1])
+		e.decls2("(declare-fun umul (Int Int) Int)")
+		if !e.opaqueMul {
+			e.decls2("(assert (forall ((a Int) (b Int)) (! (= (umul a b) (* a b)) :pattern ((umul a b)))))")
+		}
+		return scalar(a.T, sx("umul", a.S, b.S))
 	case "fresh":
 		// fresh(x): x was allocated after function entry
 		x := c.eval(n.Args[0])
